@@ -117,6 +117,12 @@ func ksLeaf(c *engine.Chooser, name string, k cfg) {
 		}
 		shares[i] = protos[i].AllocateShare(lvl)
 		protos[i].GenShare(In.SK[i], Out.SK[i], ct, &shares[i])
+		if i == 0 && inst == 0 && hist == 0 {
+			if ov := mp.Overlap([]interface{}{"share", &shares[i]}, []interface{}{"protocol object", &protos[i], "ciphertext", &ct.Value}); ov != "" {
+				c.Fail("C16/ks/GenShare/output-aliases-input-or-callee", "%s", ov)
+				return
+			}
+		}
 		// smudging: share_i - c1*(s_in,i - s_out,i) is the error of the share
 		e := mp.LinearResidual(params, shares[i].Value, ct.Value[1], ct.IsNTT, mp.DiffKeys(params, Out.SK[i], In.SK[i]))
 		if isZero(e) {
@@ -138,10 +144,22 @@ func ksLeaf(c *engine.Chooser, name string, k cfg) {
 	// result out of place and in place must agree
 	out := rlwe.NewCiphertext(params, 1, lvl)
 	protos[0].KeySwitch(ct, agg, out)
+	if inst == 0 && hist == 0 {
+		if ov := mp.Overlap([]interface{}{"switched ciphertext", &out.Value}, []interface{}{"input ciphertext", &ct.Value, "aggregate", &agg, "protocol object", &protos[0]}); ov != "" {
+			c.Fail("C16/ks/KeySwitch/output-aliases-input-or-callee", "%s", ov)
+			return
+		}
+		c.Cover("alias", "outputs-vs-inputs-and-callee")
+	}
 	inpl := ct.CopyNew()
 	protos[0].KeySwitch(inpl, agg, inpl)
 	if !out.Equal(inpl) {
 		c.Fail("C16/ks/KeySwitch/in-place-differs", "KeySwitch(ct, share, ct) != KeySwitch(ct, share, fresh)")
+		return
+	}
+	if !receiverAxis(c, finalCall{sig: "C16/ks/KeySwitch", rp: params, want: inpl, checkMeta: true,
+		alloc: func(d, l int) *rlwe.Ciphertext { return rlwe.NewCiphertext(params, d, l) },
+		run:   func(o *rlwe.Ciphertext) error { protos[0].KeySwitch(ct, agg, o); return nil }}, name) {
 		return
 	}
 	if out.Level() != lvl || out.IsNTT != ct.IsNTT {
@@ -216,6 +234,12 @@ func pcksLeaf(c *engine.Chooser, name string, k cfg) {
 		}
 		shares[i] = protos[i].AllocateShare(lvl)
 		protos[i].GenShare(In.SK[i], pkOut, ct, &shares[i])
+		if i == 0 && inst == 0 && hist == 0 {
+			if ov := mp.Overlap([]interface{}{"share", &shares[i].Value}, []interface{}{"protocol object", &protos[i], "ciphertext", &ct.Value, "public key", pkOut}); ov != "" {
+				c.Fail("C16/pcks/GenShare/output-aliases-input-or-callee", "%s", ov)
+				return
+			}
+		}
 		// noise of the share: h0 + h1*s_out - c1*s_i
 		h := &rlwe.Element[ring.Poly]{Value: shares[i].Value, MetaData: &rlwe.MetaData{}}
 		h.IsNTT = ct.IsNTT
@@ -257,10 +281,21 @@ func pcksLeaf(c *engine.Chooser, name string, k cfg) {
 	c.Outcome(name, ops.Flat(agg).Hash())
 	out := rlwe.NewCiphertext(params, 1, lvl)
 	protos[0].KeySwitch(ct, agg, out)
+	if inst == 0 && hist == 0 {
+		if ov := mp.Overlap([]interface{}{"switched ciphertext", &out.Value}, []interface{}{"input ciphertext", &ct.Value, "aggregate", &agg.Value, "protocol object", &protos[0]}); ov != "" {
+			c.Fail("C16/pcks/KeySwitch/output-aliases-input-or-callee", "%s", ov)
+			return
+		}
+	}
 	inpl := ct.CopyNew()
 	protos[0].KeySwitch(inpl, agg, inpl)
 	if !out.Equal(inpl) {
 		c.Fail("C16/pcks/KeySwitch/in-place-differs", "KeySwitch(ct, share, ct) != KeySwitch(ct, share, fresh)")
+		return
+	}
+	if !receiverAxis(c, finalCall{sig: "C16/pcks/KeySwitch", rp: params, want: inpl, checkMeta: true,
+		alloc: func(d, l int) *rlwe.Ciphertext { return rlwe.NewCiphertext(params, d, l) },
+		run:   func(o *rlwe.Ciphertext) error { protos[0].KeySwitch(ct, agg, o); return nil }}, name) {
 		return
 	}
 	bound := new(big.Int).Add(mp.XeSup(params.Xe()), new(big.Int).Mul(big.NewInt(int64(k.n)), perShare))
